@@ -35,32 +35,28 @@ def DTest.holds (tr : Trace) (k : Nat) : DTest → Bool
   | .atom a => tr k a
   | .const b => b
 
-/-- insert into a duplicate-free list -/
-def insNat (x : Nat) (xs : List Nat) : List Nat := if xs.contains x then xs else x :: xs
-def unionNat (xs ys : List Nat) : List Nat := xs.foldr insNat ys
+/-- reflexive-transitive closure of a step relation `R` on positions `0..h`, in at most `n` steps -/
+def starRuns (h : Nat) (R : Nat → Nat → Bool) : Nat → Nat → Nat → Bool
+  | 0, k, j => j == k
+  | n+1, k, j => j == k || anyUpTo h fun m => R k m && starRuns h R n m j
 
-/-- iterate `f` `n` times, accumulating the union -/
-def closure (f : List Nat → List Nat) : Nat → List Nat → List Nat
-  | 0, s => s
-  | n+1, s => closure f n (unionNat (f s) s)
+/-- `runs h tr p k j` : some run of the path expression `p` leads from position `k` to position `j`
+    without leaving `0..h`  (the relation ‖p‖ of LDL_f). -/
+def runs (h : Nat) (tr : Trace) : DPath → Nat → Nat → Bool
+  | .skip, k, j => j == k + 1 && decide (j ≤ h)
+  | .test t, k, j => j == k && t.holds tr k
+  | .step a, k, j => tr k a && (j == k + 1 && decide (j ≤ h))
+  | .choice l r, k, j => runs h tr l k j || runs h tr r k j
+  | .seq l r, k, j => anyUpTo h fun m => runs h tr l k m && runs h tr r m j
+  | .star p, k, j => starRuns h (runs h tr p) (h + 1) k j
 
-/-- `reach h tr p S` : positions reachable from some position of `S` by one run of `p`
-    that stays inside `0..h`. -/
-def reach (h : Nat) (tr : Trace) : DPath → List Nat → List Nat
-  | .skip, s => (s.filter (fun k => k + 1 ≤ h)).map (· + 1)
-  | .test t, s => s.filter (fun k => t.holds tr k)
-  | .step a, s => ((s.filter (fun k => tr k a)).filter (fun k => k + 1 ≤ h)).map (· + 1)
-  | .choice l r, s => unionNat (reach h tr l s) (reach h tr r s)
-  | .seq l r, s => reach h tr r (reach h tr l s)
-  | .star p, s => closure (reach h tr p) (h + 1) s
-
-/-- LDL_f truth value at position `k`. -/
+/-- LDL_f truth value at position `k`: diamond = some run ends in a state satisfying `f`, box = every run. -/
 def ldlSem (h : Nat) (tr : Trace) : DForm → Nat → Bool
   | .atom a, k => tr k a
   | .const b, _ => b
   | .final, k => k == h
-  | .dia p f, k => (reach h tr p [k]).any fun j => ldlSem h tr f j
-  | .box p f, k => (reach h tr p [k]).all fun j => ldlSem h tr f j
+  | .dia p f, k => anyUpTo h fun j => runs h tr p k j && ldlSem h tr f j
+  | .box p f, k => allUpTo h fun j => !(runs h tr p k j) || ldlSem h tr f j
 
 /-- The documented normal form: iteration only over paths every run of which
     consumes at least one state. -/
